@@ -276,6 +276,43 @@ theorem C13_syphilis_arrows : ∀ s : Flags, Syphilis.partition s = true →
         (g.p_uids = false → setPrognoses s g = s)) := by
   decide +kernel
 
+/-- **Spec or as-is** (round 3): the hypothesis "a congenital outcome only falls due for a still-susceptible agent" of the
+    two theorems above.  EITHER `step_state` preserves the partition for every guard valuation without it (a repaired
+    `step_state` that applies the outcome to susceptibles only), OR it is needed: there is a partitioned, non-susceptible
+    agent whose outcome falls due and who leaves `step_state` in a stage AND congenital (kernel search). -/
+theorem C13_syphilis_congenital_due :
+    (∀ (s : Flags) (g : StepStateG), Syphilis.partition s = true → Syphilis.partition (stepState s g) = true)
+    ∨ (∃ (s : Flags) (g : StepStateG), Syphilis.partition s = true ∧ s.susceptible = false ∧ g.c_ti_congenital_eq = true ∧
+        Syphilis.partition (stepState s g) = false ∧ (stepState s g).congenital = true) := by
+  first
+  | (right; decide +kernel)
+  | (left; decide +kernel)
+
+/-- **Spec or as-is** (round 3): the clock of the birth outcomes.  `step_state` compares `ti_congenital` with the module's
+    own step index.  EITHER `set_congenital` schedules the outcomes in that clock (regenerated fact), OR it schedules them
+    from the SIMULATION's index — and then, for a module on a finer timestep (`r ≥ 2` steps per simulation step, from the
+    second simulation step on), an outcome meant to fall due `d` module steps from now, written as `sim index + d`, is
+    strictly earlier than intended (`module index + d`), by the whole gap between the clocks; for a coarser module it is
+    strictly later.  With the wrong due time the hypothesis of `C13_syphilis_partition` is no longer guaranteed by the
+    birth process (known finding C13-syphilis-congenital-sim-clock). -/
+theorem C13_syphilis_congenital_clock :
+    congenitalOutcomeInModuleClock = true
+    ∨ (congenitalOutcomeInModuleClock = false ∧
+       (∀ r k m d : Nat, 2 ≤ r → 2 ≤ k → (TimerOps.moduleIndexRange r k).1 ≤ m → k + d < m + d) ∧
+       (∀ c j d : Nat, 2 ≤ c → 1 ≤ j → j + d < TimerOps.simIndexCoarse c j + d)) := by
+  first
+  | (left; decide)
+  | (right
+     refine ⟨by decide, ?_, ?_⟩
+     · intro r k m d hr hk hm
+       have h : 2 * (k - 1) ≤ r * (k - 1) := Nat.mul_le_mul_right _ hr
+       simp only [TimerOps.moduleIndexRange] at hm
+       split at hm <;> simp at hm <;> omega
+     · intro c j d hc hj
+       have h : 2 * j ≤ c * j := Nat.mul_le_mul_right _ hc
+       simp only [TimerOps.simIndexCoarse]
+       omega)
+
 example : Syphilis.partition {
     susceptible := false, infected := true, exposed := false, primary := false, secondary := true,
     latent_temp := false, latent_long := false, tertiary := false, immune := false, ever_exposed := true,
@@ -539,6 +576,40 @@ theorem C13_timers_own_clock (now a b : Rat) :
     (∀ d s g t, Gen.Syphilis.setPrognosesTimers now a d s g t = Gen.Syphilis.setPrognosesTimers now b d s g t) :=
   ⟨fun _ _ _ _ => rfl, fun _ _ _ _ => rfl, fun _ _ _ _ => rfl, fun _ _ _ _ => rfl,
    fun _ _ _ _ => rfl, fun _ _ _ _ => rfl, fun _ _ _ _ => rfl, fun _ _ _ _ => rfl⟩
+
+/-- **The two clocks differ.**  A module making `r ≥ 2` steps per simulation step is, from the second simulation step on,
+    strictly ahead of the simulation's index at every one of its steps; a module making one step per `c ≥ 2` simulation
+    steps is strictly behind from its step 1 on.  (So no time written in one clock may be compared in the other; the index
+    relations themselves are compared with the real loop on every run.) -/
+theorem C13_clocks_differ :
+    (∀ r k m : Nat, 2 ≤ r → 2 ≤ k → (moduleIndexRange r k).1 ≤ m → k < m) ∧
+    (∀ r k : Nat, 1 ≤ r → (moduleIndexRange r k).1 ≤ (moduleIndexRange r k).2) ∧
+    (∀ k : Nat, moduleIndexRange 1 k = (k, k)) ∧
+    (∀ c j : Nat, 2 ≤ c → 1 ≤ j → j < simIndexCoarse c j) ∧
+    (∀ j : Nat, simIndexCoarse 1 j = j) := by
+  refine ⟨?_, ?_, ?_, ?_, ?_⟩
+  · intro r k m hr hk hm
+    have h : 2 * (k - 1) ≤ r * (k - 1) := Nat.mul_le_mul_right _ hr
+    simp only [moduleIndexRange] at hm
+    split at hm <;> simp at hm <;> omega
+  · intro r k hr
+    have h : 1 * (k - 1) ≤ r * (k - 1) := Nat.mul_le_mul_right _ hr
+    have h2 : r * k = r * (k - 1) + r * (k - (k - 1)) := by rw [← Nat.mul_add]; congr 1; omega
+    simp only [moduleIndexRange]
+    split
+    · simp
+    · have h3 : k - (k - 1) = 1 := by omega
+      rw [h3, Nat.mul_one] at h2
+      simp only; omega
+  · intro k
+    simp only [moduleIndexRange]
+    split <;> simp <;> omega
+  · intro c j hc hj
+    have h : 2 * j ≤ c * j := Nat.mul_le_mul_right _ hc
+    simp only [simIndexCoarse]; omega
+  · intro j; simp [simIndexCoarse]
+
+example : moduleIndexRange 4 1 = (1, 4) ∧ moduleIndexRange 4 2 = (5, 8) ∧ simIndexCoarse 3 5 = 15 := by decide
 
 /-- non-vacuity of the two-clock statement: a module on half the simulation's step is at its step 16 while the simulation
     is at step 8; a recovery scheduled as `simNow + 6` would fall before the infection recorded at `now` -/
